@@ -14,6 +14,10 @@ Lemma snode_if c th rest : snode (SIf c th rest) = NIf 0 (NIfCond 0 (Some (cnode
 Lemma snode_for x e body hasie ie : snode (SFor x e body hasie ie)
   = NFor 0 x (cnode e) (NList 0 (bnodes body)) (if hasie then Some (NList 0 (bnodes ie)) else None). Proof. reflexivity. Qed.
 Lemma sdepth_for x e body hasie ie : sdepth (SFor x e body hasie ie) = S (S (Nat.max (cdepth e) (Nat.max (bdepth body) (bdepth ie)))). Proof. reflexivity. Qed.
+Lemma snode_forrange x a1 rest body hasie ie : snode (SForRange x a1 rest body hasie ie)
+  = NFor 0 x (NFunc 0 jn_range (cnode a1 :: map cnode rest)) (NList 0 (bnodes body)) (if hasie then Some (NList 0 (bnodes ie)) else None). Proof. reflexivity. Qed.
+Lemma sdepth_forrange x a1 rest body hasie ie : sdepth (SForRange x a1 rest body hasie ie)
+  = S (S (S (Nat.max (Nat.max (cdepth a1) (cdepths rest)) (Nat.max (bdepth body) (bdepth ie))))). Proof. reflexivity. Qed.
 Lemma snode_switch v cs : snode (SSwitch v cs) = NSwitch 0 (cnode v) (knodes cs). Proof. reflexivity. Qed.
 Lemma bnodes_cons s r : bnodes (BCons s r) = snode s :: bnodes r. Proof. reflexivity. Qed.
 Lemma enodes_else b : enodes (EElse b) = [NIfCond 0 None (NList 0 (bnodes b))]. Proof. reflexivity. Qed.
@@ -154,6 +158,12 @@ Proof.
     destruct l as [|v0 r0].
     + destruct hasie; [destruct (bout (c_ij cf) mode go_print_text env ie); [|discriminate]|]; intro E; inversion E; subst; exact Hc.
     + destruct (for_out _ _ _ _ _); [|discriminate]. intro E; inversion E; subst; exact Hc.
+  - rewrite sout_forrange. destruct (is_ident x && negb (bstr_eqb x n_ij)); [|discriminate].
+    destruct (cints (c_ij cf) env (a1 :: rest)) as [zs|]; [|discriminate]. destruct (range_args 0%Z 1%Z zs) as [[[a l] stp]|]; [|discriminate].
+    destruct ((0 <? stp)%Z && small (l - a)); [|discriminate]. cbn zeta.
+    destruct (range_items (Z.to_nat (Z.max 0 (l - a))) a l stp) as [|v0 r0].
+    + destruct hasie; [destruct (bout (c_ij cf) mode go_print_text env ie); [|discriminate]|]; intro E; inversion E; subst; exact Hc.
+    + destruct (for_out _ _ _ _ _); [|discriminate]. intro E; inversion E; subst; exact Hc.
 Qed.
 
 (* a block: NList pushes an (empty) frame, walks its statements, pops *)
@@ -252,6 +262,151 @@ Proof.
       split; [rewrite concat_b_app; congruence|]. split; [congruence|]. split; [exact N4|congruence].
 Qed.
 
+(* the arguments of range(), evaluated in order *)
+Lemma go_eval_list F env es : envok env -> (forall y, In y es -> (cdepth y < F)%nat) -> forall zs st1, agrees st1 env ->
+  cints (c_ij cf) env es = Some zs ->
+  exists st2, eval_list (walk cf F) (map cnode es) st1 = (Ok (map VInt zs), st2) /\ pres st1 st2.
+Proof.
+  intros Hc. induction es as [|e r IH]; intros Hd zs st1 Ha E; cbn [cints map eval_list] in *.
+  - inversion E; subst. exists st1. split; [reflexivity|apply pres_refl].
+  - destruct (ceval (c_ij cf) env e) as [[| | |z| | | |]|] eqn:Ee; try discriminate.
+    destruct (cints (c_ij cf) env r) as [zr|] eqn:Er; [|discriminate]. inversion E; subst zs. clear E.
+    destruct (go_eval F e st1 (VInt z) env Ha Hc (Hd e (or_introl eq_refl)) Ee) as (st2 & E2 & P2).
+    unfold mbind at 1. rewrite E2.
+    destruct (IH (fun y Hy => Hd y (or_intror Hy)) zr st2 (agrees_pres _ _ _ P2 Ha) eq_refl) as (st3 & E3 & P3).
+    unfold mbind at 1. rewrite E3. cbn [ret map]. exists st3. split; [reflexivity|eapply pres_trans; eauto].
+Qed.
+
+Lemma range_list_items f i l s : range_list f i l s = range_items f i l s.
+Proof. revert i. induction f as [|f IH]; intro i; cbn [range_list range_items]; [reflexivity|]. rewrite IH. reflexivity. Qed.
+
+Lemma fresh_list_or_nil_pres l st1 : exists lid st2, fresh_list_or_nil l st1 = (Ok (VList lid l), st2) /\ pres st1 st2.
+Proof.
+  unfold fresh_list_or_nil. destruct l as [|v r]; eexists; eexists; (split; [reflexivity|]); [apply pres_refl|repeat split].
+Qed.
+
+(* range(..) as the renderer evaluates it: the list of the subset semantics, whatever identity it gets *)
+Lemma go_range_eval st F env a1 rest zs a l stp : agrees st env -> envok env ->
+  cints (c_ij cf) env (a1 :: rest) = Some zs -> range_args 0%Z 1%Z zs = Some (a, l, stp) -> (0 < stp)%Z ->
+  (forall y, In y (a1 :: rest) -> (cdepth y < F)%nat) ->
+  small a = true /\ small l = true /\
+  forall st1, agrees st1 env ->
+    exists lid, mok (eval (walk cf (S F)) (NFunc 0 jn_range (cnode a1 :: map cnode rest))) st1
+                    (VList lid (range_items (Z.to_nat (Z.max 0 (l - a))) a l stp)).
+Proof.
+  intros Ha Hc Hci Hr Hst Hd.
+  (* each argument is core data *)
+  assert (Hcore : forall e z, ceval (c_ij cf) env e = Some (VInt z) -> small z = true).
+  { intros e z He. apply (ceval_core cf st) with (e := e) (v := VInt z); auto.
+    - intros k y Hk. rewrite Ha in Hk. eapply Hc; eauto.
+    - rewrite (ceval_ext _ _ env Ha). exact He. }
+  destruct (range_cnt_bound a l stp Hst) as (C0 & C1 & C2).
+  (* the list with the renderer's fuel *)
+  assert (Hgo : forall fuel, (range_cnt a l stp <= Z.of_nat fuel)%Z ->
+            range_list fuel a l stp = range_items (Z.to_nat (Z.max 0 (l - a))) a l stp).
+  { intros fuel Hfu. rewrite range_list_items, !(range_items_spec stp l Hst) by lia. reflexivity. }
+  assert (Hmain : small a = true /\ small l = true /\
+            apply_func jn_range (map VInt zs) = Ok (FNewList (range_items (Z.to_nat (Z.max 0 (l - a))) a l stp))
+            /\ (length zs = length (a1 :: rest)) /\ (1 <= length zs <= 3)%nat).
+  { cbn [cints] in Hci. destruct (ceval (c_ij cf) env a1) as [[| | |z1| | | |]|] eqn:E1; try discriminate. pose proof (Hcore a1 z1 E1) as S1.
+    destruct rest as [|e2 rest].
+    - cbn [cints] in Hci. inversion Hci; subst zs. cbn [range_args] in Hr. inversion Hr; subst. split; [reflexivity|]. split; [exact S1|].
+      split; [|cbn; lia]. cbn [map]. change (apply_func jn_range [VInt l]) with (Ok (FNewList (range_list (Z.to_nat l) 0 l 1))).
+      rewrite Hgo; [reflexivity|]. unfold range_cnt. rewrite Z.div_1_r. lia.
+    - cbn [cints] in Hci. destruct (ceval (c_ij cf) env e2) as [[| | |z2| | | |]|] eqn:E2; try discriminate. pose proof (Hcore e2 z2 E2) as S2.
+      destruct rest as [|e3 rest].
+      + cbn [cints] in Hci. inversion Hci; subst zs. cbn [range_args] in Hr. inversion Hr; subst. split; [exact S1|]. split; [exact S2|].
+        split; [|cbn; lia]. cbn [map]. change (apply_func jn_range [VInt a; VInt l]) with (Ok (FNewList (range_list (Z.to_nat (l - a)) a l 1))).
+        rewrite Hgo; [reflexivity|]. unfold range_cnt. rewrite Z.div_1_r. lia.
+      + cbn [cints] in Hci. destruct (ceval (c_ij cf) env e3) as [[| | |z3| | | |]|] eqn:E3; try discriminate.
+        destruct rest as [|e4 rest].
+        * cbn [cints] in Hci. inversion Hci; subst zs. cbn [range_args] in Hr. inversion Hr; subst. split; [exact S1|]. split; [exact S2|].
+          split; [|cbn; lia]. cbn [map].
+          change (apply_func jn_range [VInt a; VInt l; VInt stp])
+            with (if (stp <=? 0)%Z then Err e_range else Ok (FNewList (range_list (Z.to_nat ((l - a) / stp + 1)) a l stp))).
+          replace (stp <=? 0)%Z with false by (symmetry; apply Z.leb_gt; lia).
+          rewrite Hgo; [reflexivity|]. unfold range_cnt.
+          assert ((l - a + stp - 1) / stp <= (l - a) / stp + 1)%Z.
+          { replace ((l - a) / stp + 1)%Z with ((l - a + 1 * stp) / stp)%Z by (rewrite Z.div_add by lia; reflexivity).
+            apply Z.div_le_mono; lia. }
+          lia.
+        * cbn [cints] in Hci. destruct (ceval (c_ij cf) env e4) as [[| | |z4| | | |]|]; try discriminate.
+          destruct (cints (c_ij cf) env rest) as [zr|]; try discriminate. inversion Hci; subst zs. cbn [range_args] in Hr. discriminate. }
+  destruct Hmain as (Ssa & Ssl & Happ & Hlz & Hlz3). split; [exact Ssa|]. split; [exact Ssl|].
+  intros st1 Ha1.
+  destruct (go_eval_list F env (a1 :: rest) Hc Hd zs (set_cur st1 0) (agrees_pres _ _ _ (pres_set_cur _ _) Ha1) Hci)
+    as (st2 & E2 & P2).
+  destruct (fresh_list_or_nil_pres (range_items (Z.to_nat (Z.max 0 (l - a))) a l stp) st2) as (lid & st3 & E3 & P3).
+  exists lid. apply mok_eval. apply walk_S. cbn [walk_node pos_of].
+  replace (fn_is jn_range n_index || fn_is jn_range n_isFirst || fn_is jn_range n_isLast) with false by reflexivity.
+  exists st3. split; [|eapply pres_trans; eauto].
+  unfold call_func. replace (func_arities jn_range) with (Some [1; 2; 3]) by (vm_compute; reflexivity).
+  change (cnode a1 :: map cnode rest) with (map cnode (a1 :: rest)). rewrite map_length, <- Hlz.
+  replace (negb (mem (N.of_nat (length zs)) [1; 2; 3])) with false
+    by (destruct zs as [|? [|? [|? [|? ?]]]]; cbn [length] in Hlz3; try lia; reflexivity).
+  unfold mbind at 1. rewrite E2. unfold mbind at 1. rewrite Happ. cbn [lift]. exact E3.
+Qed.
+
+(* what a loop over the list l writes *)
+Definition for_text (m : N) (x : bstr) (body : cblk) (hasie : bool) (ie : cblk) (env : bstr -> option value) (l : list value) (text : bstr) : Prop :=
+  match l with
+  | [] => if hasie then bout (c_ij cf) m go_print_text env ie = Some text else text = []
+  | _ :: _ => for_out (fun en => bout (c_ij cf) m go_print_text en body) x (env_set env (x ++ c_lastindex) (VInt (Z.of_nat (length l) - 1))) 0%Z l = Some text
+  end.
+
+(* visitFor / evalFor once the list expression has its value: foreach and for-range share it *)
+Lemma go_for_walk x lst body hasie ie (IHb : GP_b body) (IHi : GP_b ie) F st l text env :
+  (bdepth body < F)%nat -> (bdepth ie < F)%nat -> wok st -> ctx st <> [] -> agrees st env -> envok env ->
+  (forall st1, pres st st1 -> exists lid, mok (eval (walk cf F) lst) st1 (VList lid l)) ->
+  small (Z.of_nat (length l)) = true -> forallb core_value l = true ->
+  for_text (mode st) x body hasie ie env l text ->
+  bres (walk cf (S F) (NFor 0 x lst (NList 0 (bnodes body)) (if hasie then Some (NList 0 (bnodes ie)) else None))) st text.
+Proof.
+  intros Hdb Hdi Hg Hn Ha Hc Hev Hsm Hcl Hout.
+  unfold bres0. rewrite walk_unfold. cbn [walk_node].
+  match goal with |- context [set_cur st ?p] => set (st1 := set_cur st p) end.
+  assert (P1 : pres st st1) by apply pres_set_cur.
+  destruct (Hev st1 P1) as (lid & st2 & E2 & P2).
+  pose proof (pres_trans _ _ _ P1 P2) as P. assert (Mo : mode st2 = mode st) by apply P.
+  pose proof (wsame_wok _ _ (pres_wsame _ _ P) Hg) as Hg2.
+  pose proof (agrees_pres _ _ _ P Ha) as Ha2.
+  unfold for_text in Hout. destruct l as [|v0 r0].
+  - (* the empty list *)
+    destruct hasie.
+    + unfold mbind at 1. rewrite E2.
+      apply (bres0_pres st _ st2 text P). apply bres0_ret. apply (go_block ie F st2 text env); auto. rewrite Mo. exact Hout.
+    + subst text. unfold mbind at 1. rewrite E2. exists st2, [], VUndef. split; [reflexivity|].
+      split; [apply wsame_wrote; exact (pres_wsame _ _ P)|]. split; [reflexivity|]. split; [exact Mo|apply P].
+  - (* at least one element *)
+    unfold mbind at 1. rewrite E2. cbn iota.
+    set (l := v0 :: r0) in *. set (last := (Z.of_nat (length l) - 1)%Z) in *.
+    unfold mbind at 1. unfold m_push. cbn [modify].
+    set (stp := set_ctx st2 (sc_push (ctx st2))).
+    assert (Sp : wsame st2 stp) by (subst stp; repeat split).
+    assert (Ap : agrees stp env) by (intro k; subst stp; cbn; apply Ha2).
+    assert (Np : ctx stp <> []) by (subst stp; cbn; discriminate).
+    change s_lastindex with c_lastindex.
+    destruct (go_set stp (x ++ c_lastindex) (VInt last) env Np Ap) as (st3 & E3 & S3 & M3 & N3 & T3 & A3).
+    unfold mbind at 1. fold last. rewrite E3.
+    assert (Hlast : small last = true) by (apply (small_between last (Z.of_nat (length l))); [subst last l; cbn [length]; lia|exact Hsm]).
+    destruct (go_rounds body IHb F x (mode st) Hdb l 0%Z st3 (env_set env (x ++ c_lastindex) (VInt last)) text) as (st4 & ws & E4 & W4 & C4 & M4 & N4 & T4).
+    + rewrite M3. subst stp. cbn. exact Mo.
+    + exact (wsame_wok _ _ (wsame_trans _ _ _ Sp S3) Hg2).
+    + exact N3.
+    + exact A3.
+    + apply envok_set; [exact Hc|exact Hlast].
+    + intros v Hv. exact (proj1 (forallb_forall _ _) Hcl v Hv).
+    + lia.
+    + exact Hsm.
+    + exact Hout.
+    + unfold mbind at 1. rewrite E4. unfold mbind at 1. unfold m_pop. cbn [modify ret].
+      exists (set_ctx st4 (sc_pop (ctx st4))), ws, VUndef. split; [reflexivity|].
+      split; [apply (wrote_r _ st4); [|repeat split];
+              exact (wrote_l _ _ _ _ (wsame_trans _ _ _ (pres_wsame _ _ P) (wsame_trans _ _ _ Sp S3)) W4)|].
+      split; [exact C4|]. cbn [set_ctx ctx mode]. split; [rewrite M4, M3; subst stp; cbn; exact Mo|].
+      unfold sc_pop. rewrite T4, T3. subst stp. cbn. apply P.
+Qed.
+
 Theorem interp_all : (forall s, GP_s s) /\ (forall b, GP_b b) /\ (forall e, GP_e e) /\ (forall k, GP_k k).
 Proof.
   apply cstmt_mutind.
@@ -336,56 +491,42 @@ Proof.
     { apply (ceval_core cf st) with (e := e) (v := VList lid l); auto.
       - intros k y Hk. rewrite Ha in Hk. eapply Hc; eauto.
       - rewrite (ceval_ext _ _ env Ha). exact Ev. }
-    rewrite sdepth_for in Hf. destruct f as [|F]; [lia|].
-    assert (Hmain : exists t, text = t /\ env' = env /\ bres (walk cf (S F) (snode (SFor x e body hasie ie))) st t).
-    { unfold bres0. rewrite walk_unfold, snode_for. cbn [walk_node].
-      match goal with |- context [set_cur st ?p] => set (st1 := set_cur st p) end.
-      assert (P1 : pres st st1) by apply pres_set_cur.
-      destruct (go_eval F e st1 (VList lid l) env (agrees_pres _ _ _ P1 Ha) Hc ltac:(lia) Ev) as (st2 & E2 & P2).
-      pose proof (pres_trans _ _ _ P1 P2) as P. assert (Mo : mode st2 = mode st) by apply P.
-      pose proof (wsame_wok _ _ (pres_wsame _ _ P) Hg) as Hg2.
-      pose proof (agrees_pres _ _ _ P Ha) as Ha2.
-      destruct l as [|v0 r0].
-      - (* the empty list *)
-        destruct hasie.
-        + destruct (bout (c_ij cf) (mode st) go_print_text env ie) as [t|] eqn:Et; [|discriminate]. inversion E; subst. clear E.
-          exists text. split; [reflexivity|]. split; [reflexivity|].
-          unfold mbind at 1. rewrite E2.
-          apply (bres0_pres st _ st2 text P). apply bres0_ret. apply (go_block ie F st2 text env'); auto. lia. rewrite Mo. exact Et.
-        + inversion E; subst. clear E. exists []. split; [reflexivity|]. split; [reflexivity|].
-          unfold mbind at 1. rewrite E2. exists st2, [], VUndef. split; [reflexivity|].
-          split; [apply wsame_wrote; exact (pres_wsame _ _ P)|]. split; [reflexivity|]. split; [exact Mo|apply P].
-      - (* at least one element *)
-        set (l := v0 :: r0) in *. set (last := (Z.of_nat (length l) - 1)%Z) in *.
-        destruct (for_out (fun en => bout (c_ij cf) (mode st) go_print_text en body) x (env_set env (x ++ c_lastindex) (VInt last)) 0%Z l) as [t|] eqn:Ef; [|discriminate].
-        inversion E; subst t env'. clear E. exists text. split; [reflexivity|]. split; [reflexivity|].
-        unfold mbind at 1. rewrite E2. subst l. cbn iota. set (l := v0 :: r0) in *.
-        unfold mbind at 1. unfold m_push. cbn [modify].
-        set (stp := set_ctx st2 (sc_push (ctx st2))).
-        assert (Sp : wsame st2 stp) by (subst stp; repeat split).
-        assert (Ap : agrees stp env) by (intro k; subst stp; cbn; apply Ha2).
-        assert (Np : ctx stp <> []) by (subst stp; cbn; discriminate).
-        change s_lastindex with c_lastindex.
-        destruct (go_set stp (x ++ c_lastindex) (VInt last) env Np Ap) as (st3 & E3 & S3 & M3 & N3 & T3 & A3).
-        unfold mbind at 1. fold last. rewrite E3.
-        assert (Hlast : small last = true) by (apply (small_between last (Z.of_nat (length l))); [subst last l; cbn [length]; lia|exact Hsm]).
-        destruct (go_rounds body IHb F x (mode st) ltac:(lia) l 0%Z st3 (env_set env (x ++ c_lastindex) (VInt last)) text) as (st4 & ws & E4 & W4 & C4 & M4 & N4 & T4).
-        + rewrite M3. subst stp. cbn. exact Mo.
-        + exact (wsame_wok _ _ (wsame_trans _ _ _ Sp S3) Hg2).
-        + exact N3.
-        + exact A3.
-        + apply envok_set; [exact Hc|exact Hlast].
-        + intros v Hv. exact (proj1 (forallb_forall _ _) Hcl v Hv).
-        + lia.
-        + exact Hsm.
-        + exact Ef.
-        + unfold mbind at 1. rewrite E4. unfold mbind at 1. unfold m_pop. cbn [modify ret].
-          exists (set_ctx st4 (sc_pop (ctx st4))), ws, VUndef. split; [reflexivity|].
-          split; [apply (wrote_r _ st4); [|repeat split];
-                  exact (wrote_l _ _ _ _ (wsame_trans _ _ _ (pres_wsame _ _ P) (wsame_trans _ _ _ Sp S3)) W4)|].
-          split; [exact C4|]. cbn [set_ctx ctx mode]. split; [rewrite M4, M3; subst stp; cbn; exact Mo|].
-          unfold sc_pop. rewrite T4, T3. subst stp. cbn. apply P. }
-    destruct Hmain as (t & -> & -> & Hbres). apply bres_sres; auto.
+    rewrite sdepth_for in Hf. destruct f as [|F]; [lia|]. rewrite snode_for.
+    assert (Hout : env' = env /\ for_text (mode st) x body hasie ie env l text).
+    { unfold for_text. destruct l as [|v0 r0].
+      - destruct hasie; [destruct (bout (c_ij cf) (mode st) go_print_text env ie); [|discriminate]|]; inversion E; auto.
+      - destruct (for_out _ _ _ _ _); [|discriminate]. inversion E; auto. }
+    destruct Hout as [-> Hout]. apply bres_sres; auto.
+    apply (go_for_walk x (cnode e) body hasie ie IHb IHi F st l text env); auto; try lia.
+    intros st1 P1. exists lid. apply (go_eval F e st1 (VList lid l) env (agrees_pres _ _ _ P1 Ha) Hc ltac:(lia) Ev).
+  - (* for over range() *) intros x a1 rest body IHb hasie ie IHi f st text env env' Hf Hg Hn Ha Hc E. rewrite sout_forrange in E.
+    destruct (is_ident x && negb (bstr_eqb x n_ij)); [|discriminate].
+    destruct (cints (c_ij cf) env (a1 :: rest)) as [zs|] eqn:Hci; [|discriminate].
+    destruct (range_args 0%Z 1%Z zs) as [[[a l] stp]|] eqn:Hr; [|discriminate].
+    destruct (0 <? stp)%Z eqn:Hst; [|discriminate]. destruct (small (l - a)) eqn:Hsd; [|discriminate]. cbn [andb] in E. cbn zeta in E.
+    apply Z.ltb_lt in Hst.
+    rewrite sdepth_forrange in Hf. destruct f as [|F]; [lia|]. destruct F as [|F']; [lia|]. rewrite snode_forrange.
+    set (items := range_items (Z.to_nat (Z.max 0 (l - a))) a l stp) in *.
+    destruct (range_cnt_bound a l stp Hst) as (C0 & C1 & C2).
+    assert (Hspec : items = lin_list (Z.to_nat (range_cnt a l stp)) a stp) by (apply range_items_spec; [exact Hst|lia]).
+    assert (Hlen : Z.of_nat (length items) = range_cnt a l stp) by (rewrite Hspec, lin_list_length; lia).
+    assert (Hdep : forall y, In y (a1 :: rest) -> (cdepth y < F')%nat).
+    { intros y [<-|Hy]; [lia|]. pose proof (cdepths_le y rest Hy). lia. }
+    destruct (go_range_eval st F' env a1 rest zs a l stp Ha Hc Hci Hr Hst Hdep) as (Ssa & Ssl & Hev). fold items in Hev.
+    assert (Hsm : small (Z.of_nat (length items)) = true).
+    { rewrite Hlen. unfold small in *. apply Z.leb_le in Hsd. apply Z.leb_le. lia. }
+    assert (Hcl : forallb core_value items = true).
+    { apply forallb_forall. intros v Hv. destruct (in_split v items Hv) as (pre & r & Hs). rewrite Hspec in Hs.
+      rewrite (lin_list_mid stp pre _ a v r Hs). cbn [core_value]. apply (small_in a l); [exact Ssa|exact Ssl|].
+      assert (Hl2 : length (lin_list (Z.to_nat (range_cnt a l stp)) a stp) = (length pre + S (length r))%nat) by (rewrite Hs, app_length; reflexivity).
+      rewrite lin_list_length in Hl2. left. clear - Hl2 C0 C1 C2 Hst. nia. }
+    assert (Hout : env' = env /\ for_text (mode st) x body hasie ie env items text).
+    { unfold for_text. destruct items as [|v0 r0].
+      - destruct hasie; [destruct (bout (c_ij cf) (mode st) go_print_text env ie); [|discriminate]|]; inversion E; auto.
+      - destruct (for_out _ _ _ _ _); [|discriminate]. inversion E; auto. }
+    destruct Hout as [-> Hout]. apply bres_sres; auto.
+    apply (go_for_walk x _ body hasie ie IHb IHi (S F') st items text env); auto; try lia.
+    intros st1 P1. apply Hev. exact (agrees_pres _ _ _ P1 Ha).
   - (* BNil *) intros f st text env Hf Hg Hn Ha Hc E. rewrite bout_nil in E. inversion E; subst. exists st, [].
     split; [reflexivity|]. split; [apply wsame_wrote, wsame_refl|auto].
   - (* BCons *) intros s IHs r IHr f st text env Hf Hg Hn Ha Hc E. rewrite bout_cons in E. rewrite bdepth_cons in Hf.
